@@ -100,7 +100,7 @@ def run(c):
                          + ([] if c.quick else list(range(140, 513)))))
     for hashf in HASHES:
         for letter in "ABCDEF":
-            ns = lengths if (not c.quick or letter in "AF") else rnd.sample(lengths, 40)
+            ns = lengths if (not c.quick or letter == "ABCDEF"[(HASHES.index(hashf) + c.seed) % 6]) else rnd.sample(lengths, 25)
             for nb in ns:
                 rec = P.compute_key_record(rnd, hashf, letter, nb)
                 batch.append({k: rec[k] for k in ("kind", "letter", "n", "hl", "calls", "out_ok", "rfc_ok")})
@@ -192,5 +192,5 @@ def run(c):
     c.rule = ("(a) _compute_key for every letter A-F x kex hash sha1/sha256/sha384/sha512 x lengths %s, random K of 1..4096 bits (+ mpint edge "
               "cases), H, session id; (b) one real client/server session per cipher x MAC pair (%s) with rotating kex algorithm and a re-key, "
               "4 activations per exchange.  distinct = distinct (hash, letter, length) / (cipher, mac, kex, exchange number)"
-              % ("1..139 + boundary values to 512 (A, F) / 40 sampled (B-E)" if c.quick else "1..512", "half of them, seed-chosen" if c.quick else "all 72"))
+              % ("1..139 + boundary values to 512 (one letter per hash) / 25 sampled (other letters)" if c.quick else "1..512", "half of them, seed-chosen" if c.quick else "all 72"))
     c.assumptions = ["the hash primitive itself (hashlib) is trusted", "K >= 1 (a zero shared secret cannot come out of a key exchange; mpint(0) is C39)", "K, H come from the key exchange (C06-C08)"]
